@@ -5,6 +5,7 @@
 #define ARDUINOJSON_ENABLE_ARDUINO_STREAM 1
 #define ARDUINOJSON_ENABLE_ARDUINO_PRINT 1
 #include "common.hpp"
+#include "typed_obs.hpp"
 
 struct CustomWriter {
   std::string out;
@@ -169,7 +170,7 @@ static std::string handle(const std::vector<std::string>& a) {
         ? deserializeMsgPack(doc2, (const char*)hp, input.size(), DeserializationOption::NestingLimit((uint8_t)L))
         : DeserializationError(err);
     delete[] hp;
-    std::string r = std::string(codeName(err)) + " " + std::to_string(rd.reads) + " " + dump(doc.as<JsonVariantConst>());
+    std::string r = std::string(codeName(err)) + " " + std::to_string(rd.reads) + " " + dumpTyped(doc);
     if (a[2] == "-" && (err2 != err || dump(doc2.as<JsonVariantConst>()) != dump(doc.as<JsonVariantConst>())))
       r += " PTRSIZE-DIFFERS";
     return r;
